@@ -35,6 +35,7 @@ type Stream struct {
 	eofAction   eofAction
 	reposition  bool
 	streamType  streamType
+	closed      bool
 }
 
 // NewInputTextStream creates a new input text stream backed by the given io.Reader.
@@ -352,6 +353,8 @@ func (s *Stream) Close() error {
 	if s.vm != nil {
 		s.vm.streams.remove(s)
 	}
+
+	s.closed = true
 
 	return nil
 }
